@@ -761,6 +761,27 @@ def run(ctx):
         ctx.stats.count('systematic_compositions')
         if ctx.out_of_time():
             break
+    # a delimiter search that times out on c1 buffered bytes and is given up; k bytes are consumed from the front and k new
+    # ones arrive (the buffer is exactly as long as it was), the delimiter among them; the same search again
+    fixed = []
+    for c1 in (512, 600, 1000, 4096, 70000):
+        for k in (2, 100, c1 // 2):
+            for j in sorted(set([0, k - 2, k // 2])):
+                fixed.append({'kind': 'recv-big', 'seed': c1 + k + j, 'n': c1 + k + 400, 'delims': [c1 + j, c1 + k + 300],
+                              'chunks': [[c1, None], [k, 'timeout'], [400, None]],
+                              'calls': [['until', '\r\n', 10 ** 6, False, {'abandon': 1}], ['size', k], ['peek', c1],
+                                        ['until', '\r\n', 10 ** 6, False], ['until', '\r\n', 10 ** 6, True], ['close', 10 ** 6]],
+                              'timeout': 0.5, 'recvsize': 131072, 'maxsize': 10 ** 6, 'full_socket': bool((c1 + k + j) % 2)})
+    # reads of a megabyte and more with something already buffered, from a socket that offers recv_into as well
+    for n_, pre in ((2 ** 20, 1000), (2 ** 20 + 1, 1), (3 * 2 ** 19, 4096), (2 ** 21, 70000)):
+        fixed.append({'kind': 'recv-big', 'seed': n_ % 1000 + pre, 'n': n_ + pre + 5000, 'delims': [n_ + pre + 100],
+                      'chunks': [[pre, None], [200000, None], [n_, None], [5000, None]],
+                      'calls': [['peek', 1], ['size', n_], ['size', 7], ['until', '\r\n', 10 ** 7, True], ['close', 10 ** 7]],
+                      'timeout': 5.0, 'recvsize': 65536, 'maxsize': 10 ** 7, 'full_socket': True})
+    for fi, case in enumerate(fixed):
+        if fi % ctx.nshards == ctx.shard:
+            run_case(ctx, case, check, 'fixed-big', shrink, shr)
+            ctx.stats.count('fixed_big_receive_cases')
     explore_cases(ctx, gen, check, {'quick': 30000, 'thorough': 250000}[ctx.tier], 'sock', shrink)
 
 
